@@ -68,13 +68,46 @@ pub fn search(seed: u64, full: bool, rt: &tokio::runtime::Runtime) -> SearchResu
         }
         if out.len() > 30 { break; }
     }
+    // completeness on the empty leaf set (known finding C05-D8 while it reproduces)
+    for (cfg, r) in empty_tree(rt) {
+        n += 1;
+        if let Ok(false) = r {
+            out.push(Failure {
+                clause: "verify_base/verify_nonmembership#completeness".into(),
+                case: vec!["c05".into(), "empty".into(), cfg.clone()],
+                input: format!("[{cfg}] EMPTY tree (no leaf inserted), the server's own non-membership proof for label 40.. (256 bits) against the empty tree's root hash"),
+                expected: "verify_nonmembership accepts (the label is not in the empty set)".into(),
+                observed: "rejected: the root of the empty tree stores empty_root_value(), the verifier recomputes the hash of two empty children".into(),
+                finding_id: Some("C05-D8".into()),
+            });
+        }
+    }
     SearchResult { evaluations: n, failures: out, summary: "non-membership proofs assembled from real nodes: every ancestor of every member and of every 1-bit neighbour as claimed longest prefix, fixed and seeded random leaf sets, both configurations".into() }
 }
 
 pub fn replay(case: &[&str], rt: &tokio::runtime::Runtime) -> (bool, String) {
+    if case[0] == "empty" {
+        let r = empty_tree(rt);
+        let fails = r.iter().any(|(c, x)| c == case[1] && matches!(x, Ok(false)));
+        return (fails, format!("empty tree, honest non-membership proof accepted?: {r:?}"));
+    }
     let q = u16::from_str_radix(case[1], 16).unwrap();
     let leaves: Vec<u16> = case[2..].iter().map(|s| u16::from_str_radix(s, 16).unwrap()).collect();
     let mut out = vec![];
     run_case(case[0], &leaves, q, rt, &mut out);
     match out.first() { Some(f) => (true, format!("{}: expected {}, observed {}", f.input, f.expected, f.observed)), None => (false, "holds".into()) }
+}
+
+pub fn empty_tree(rt: &tokio::runtime::Runtime) -> Vec<(String, Result<bool, String>)> {
+    vec![
+        ("whatsapp_v1".to_string(), rt.block_on(akd::vx_export::c05_empty_tree_nonmembership::<akd_core::WhatsAppV1Configuration>()).map_err(|e| e.to_string())),
+        ("experimental".to_string(), rt.block_on(akd::vx_export::c05_empty_tree_nonmembership::<akd_core::ExperimentalConfiguration<akd_core::ExampleLabel>>()).map_err(|e| e.to_string())),
+    ]
+}
+
+/// Known finding D8: the server's non-membership proof against the EMPTY tree is rejected by verify_nonmembership (both configurations).
+pub fn finding_d8(rt: &tokio::runtime::Runtime) -> (bool, String) {
+    let r = empty_tree(rt);
+    let rep = r.iter().all(|(_, x)| matches!(x, Ok(false)));
+    (rep, format!("empty tree, honest non-membership proof accepted?: {r:?}"))
 }
